@@ -17,6 +17,8 @@ def run(ctx):
     P.L5_nonfinite(ctx, "C07.L5", core)
     P.L6_reserved(ctx, "C07.L6", core, G)
     P.L7_builtins(ctx, "C07.L7", core)
+    from rules import panics
+    panics.driver_text_untouched(ctx, "C07.R8", [core, ctx.cli, ctx.wasm])
     from rules import c10
     ctx.rule("C07.L12", "the parser binds as the documented table says (levels, members, associativity): the printers' parenthesisation rules are written against that table, so a parser that groups or orders operators differently re-reads unparenthesised output as another tree", floor=30)
     c10.CRATE[0] = core
